@@ -1,16 +1,265 @@
 /-
-C14 — property theorems (see DESIGN.md §7 C14). First theorems; the refinement
-theorems are being added.
+C14 — `ska distance` (see DESIGN.md §7 C14), in exact integer arithmetic:
+an entry is `(36 × SNP distance, mismatches, matches)`; the reported proportion is
+`mismatches / (matches + mismatches)`.
+
+* `variantDist_unamb`  on cells in {A,C,G,T,-}: (36·#both-present-and-different, #exactly-one-gap, cst + #both-present)
+* `T14_sym`, `T14_ident`, `T14_range`  symmetry (all bytes), identity, proportion in [0,1]
+* `T14_once`, `T14_row`, `T14_entry`  shape of the upper triangle: each unordered pair exactly once
+* `T14_perm_rows`  row order is irrelevant
+* `T14_counts`  the mode `Modes.distance` against the table specification `Table.pairDist`
 -/
 import SkaModel.Spec.Abs
+import SkaModel.Lemmas.ZipFilter
+import SkaModel.Lemmas.VariantDist
+import SkaModel.Lemmas.FilterVariants
+import SkaModel.Lemmas.DistRows
+import SkaModel.Lemmas.DistMode
 
 namespace SkaModel.Props.C14
 
-open SkaModel SkaModel.Spec
+open SkaModel SkaModel.Spec SkaModel.VD SkaModel.FV SkaModel.ZipFilter SkaModel.DR SkaModel.DM
 
 /-- each unordered pair is reported exactly once: row `i` lists the `n - 1 - i` later samples -/
 theorem T14_once (a : Arr) (c : Nat) :
     (a.distance c).length = a.names.length := by
   simp [Arr.distance]
+
+/-! ### One pair of columns -/
+
+/-- **C14, unambiguous columns.** For cells in {A,C,G,T,-} the three accumulators are plain counts:
+36 × the number of positions where both are bases and differ; the number of positions where
+exactly one is a gap; `cst` + the number of positions where both are bases.
+(No length hypothesis is needed: `zip` truncates both ways.) -/
+theorem variantDist_unamb (c1 c2 : List UInt8) (cst : Nat)
+    (h1 : ∀ b ∈ c1, b = 65 ∨ b = 67 ∨ b = 71 ∨ b = 84 ∨ b = GAP)
+    (h2 : ∀ b ∈ c2, b = 65 ∨ b = 67 ∨ b = 71 ∨ b = 84 ∨ b = GAP) :
+    Arr.variantDist c1 c2 cst
+      = (36 * ((c1.zip c2).filter (fun p => p.1 != GAP && p.2 != GAP && p.1 != p.2)).length,
+         ((c1.zip c2).filter (fun p => (p.1 == GAP) != (p.2 == GAP))).length,
+         cst + ((c1.zip c2).filter (fun p => p.1 != GAP && p.2 != GAP)).length) := by
+  rw [variantDist_sums]
+  have hD : ((c1.zip c2).map D).sum
+      = ((c1.zip c2).map (fun p => if (p.1 != GAP && p.2 != GAP && p.1 != p.2) then 36 else 0)).sum := by
+    apply sum_map_congr
+    intro p hp
+    obtain ⟨x, y⟩ := p
+    have := List.of_mem_zip hp
+    exact D_base5 (h1 x this.1) (h2 y this.2)
+  have hB : ((c1.zip c2).map B).sum
+      = ((c1.zip c2).map (fun p => if (p.1 != GAP && p.2 != GAP) then 1 else 0)).sum :=
+    sum_map_congr _ _ _ (fun p _ => B_eq p)
+  rw [hD, hB, sum_map_ite_k, sum_map_ite_one, M_sum]
+
+/-- the mismatch and match accumulators are these counts for arbitrary bytes -/
+theorem variantDist_counts (c1 c2 : List UInt8) (cst : Nat) :
+    (Arr.variantDist c1 c2 cst).2.1 = ((c1.zip c2).filter (fun p => (p.1 == GAP) != (p.2 == GAP))).length
+    ∧ (Arr.variantDist c1 c2 cst).2.2
+        = cst + ((c1.zip c2).filter (fun p => p.1 != GAP && p.2 != GAP)).length := by
+  rw [variantDist_sums]
+  have hB : ((c1.zip c2).map B).sum
+      = ((c1.zip c2).map (fun p => if (p.1 != GAP && p.2 != GAP) then 1 else 0)).sum :=
+    sum_map_congr _ _ _ (fun p _ => B_eq p)
+  simp only [hB, sum_map_ite_one, M_sum, and_self]
+
+/-- **C14, symmetry**, for all byte columns (any lengths) -/
+theorem T14_sym (c1 c2 : List UInt8) (cst : Nat) :
+    Arr.variantDist c1 c2 cst = Arr.variantDist c2 c1 cst := by
+  rw [variantDist_sums, variantDist_sums, ← ZipFilter.zip_swap c1 c2]
+  simp only [List.map_map]
+  have hD : D ∘ Prod.swap = D := funext D_swap
+  have hM : M ∘ Prod.swap = M := funext M_swap
+  have hB : B ∘ Prod.swap = B := funext B_swap
+  rw [hD, hM, hB]
+
+/-- **C14, identity**: a sample is at distance 0 and mismatch 0 from itself -/
+theorem T14_ident (c : List UInt8) (cst : Nat)
+    (h : ∀ b ∈ c, b = 65 ∨ b = 67 ∨ b = 71 ∨ b = 84 ∨ b = GAP) :
+    (Arr.variantDist c c cst).1 = 0 ∧ (Arr.variantDist c c cst).2.1 = 0 := by
+  rw [variantDist_unamb c c cst h h]
+  rw [zip_self]
+  constructor
+  · have : (List.filter (fun p : UInt8 × UInt8 => p.1 != GAP && p.2 != GAP && p.1 != p.2)
+        (c.map fun x => (x, x))) = [] := by
+      apply filter_eq_nil_of_all_false
+      intro p hp
+      obtain ⟨x, _, rfl⟩ := List.mem_map.mp hp
+      simp
+    simp [this]
+  · have : (List.filter (fun p : UInt8 × UInt8 => (p.1 == GAP) != (p.2 == GAP))
+        (c.map fun x => (x, x))) = [] := by
+      apply filter_eq_nil_of_all_false
+      intro p hp
+      obtain ⟨x, _, rfl⟩ := List.mem_map.mp hp
+      simp
+    simp [this]
+
+private theorem MB_le (l : List (UInt8 × UInt8)) : (l.map M).sum + (l.map B).sum ≤ l.length := by
+  induction l with
+  | nil => simp
+  | cons p ps ih =>
+    have : M p + B p ≤ 1 := by
+      obtain ⟨x, y⟩ := p
+      simp only [M, B]
+      cases (x == GAP) <;> cases (y == GAP) <;> simp
+    simp only [List.map_cons, List.sum_cons, List.length_cons]; omega
+
+/-- **C14, range**: the reported proportion `mm / (mm + m)` is in [0,1]; moreover `matches`
+never drops below the constant-site count and `mm + m` is at most `cst` + the number of rows -/
+theorem T14_range (c1 c2 : List UInt8) (cst : Nat) :
+    (Arr.variantDist c1 c2 cst).2.1 ≤ (Arr.variantDist c1 c2 cst).2.1 + (Arr.variantDist c1 c2 cst).2.2
+    ∧ cst ≤ (Arr.variantDist c1 c2 cst).2.2
+    ∧ (Arr.variantDist c1 c2 cst).2.1 + (Arr.variantDist c1 c2 cst).2.2
+        ≤ cst + min c1.length c2.length := by
+  rw [variantDist_sums]
+  have := MB_le (c1.zip c2)
+  rw [List.length_zip] at this
+  refine ⟨Nat.le_add_right _ _, Nat.le_add_right _ _, ?_⟩
+  show ((c1.zip c2).map M).sum + (cst + ((c1.zip c2).map B).sum) ≤ _
+  omega
+
+/-- the distance accumulator is at most 36 per row where both are present -/
+theorem T14_dist_le (c1 c2 : List UInt8) (cst : Nat) :
+    (Arr.variantDist c1 c2 cst).1 + 36 * cst ≤ 36 * (Arr.variantDist c1 c2 cst).2.2 := by
+  rw [variantDist_sums]
+  show ((c1.zip c2).map D).sum + 36 * cst ≤ 36 * (cst + ((c1.zip c2).map B).sum)
+  generalize c1.zip c2 = l
+  induction l with
+  | nil => simp
+  | cons p ps ih =>
+    have : D p ≤ 36 * B p := by
+      simp only [D, B]; split <;> omega
+    simp only [List.map_cons, List.sum_cons]; omega
+
+/-! ### Shape of the matrix -/
+
+/-- row `i` of the matrix lists the pairs `(i, i+1), (i, i+2), …, (i, n-1)` in order -/
+theorem T14_row (a : Arr) (c i : Nat) (hi : i < a.names.length) :
+    (a.distance c)[i]? = some ((List.range (a.names.length - 1 - i)).map
+      (fun j => Arr.variantDist (a.column i) (a.column (i + 1 + j)) c)) := by
+  simp only [Arr.distance]
+  rw [List.getElem?_map, List.getElem?_range hi]
+  simp only [Option.map_some, range_filter_gt, List.map_map]
+  rfl
+
+theorem T14_row_length (a : Arr) (c i : Nat) (hi : i < a.names.length) :
+    ((a.distance c)[i]'(by rw [T14_once]; exact hi)).length = a.names.length - 1 - i := by
+  have h := T14_row a c i hi
+  rw [List.getElem?_eq_getElem (by rw [T14_once]; exact hi)] at h
+  rw [Option.some.inj h]; simp
+
+/-- the entry for the pair `i < j` sits at row `i`, position `j - i - 1`, and nowhere else
+(row `i` has exactly `n - 1 - i` entries and the matrix has `n` rows) -/
+theorem T14_entry (a : Arr) (c i j : Nat) (hij : i < j) (hj : j < a.names.length) :
+    ((a.distance c)[i]?.bind (·[j - i - 1]?)) = some (Arr.variantDist (a.column i) (a.column j) c) := by
+  rw [T14_row a c i (by omega)]
+  simp only [Option.bind_some, List.getElem?_map]
+  rw [List.getElem?_range (by omega)]
+  have : i + 1 + (j - i - 1) = j := by omega
+  simp [this]
+
+/-! ### Row order is irrelevant -/
+
+theorem step_comm (z : Nat × Nat × Nat) (x y : UInt8 × UInt8) :
+    VD.step (VD.step z x) y = VD.step (VD.step z y) x := by
+  simp only [step_eq]
+  simp only [Nat.add_right_comm]
+
+/-- permuting the cell pairs does not change the result -/
+theorem variantDist_perm {c1 c2 c1' c2' : List UInt8} (h : (c1.zip c2).Perm (c1'.zip c2')) (cst : Nat) :
+    Arr.variantDist c1 c2 cst = Arr.variantDist c1' c2' cst := by
+  rw [variantDist_eq_foldl, variantDist_eq_foldl]
+  exact h.foldl_eq' (fun x _ y _ z => step_comm z x y) _
+
+/-- **C14, row order.** If two arrays have the same names and their rows are permutations of
+each other (k-mer order in the file / hash-map iteration order), the distance matrices are equal. -/
+theorem T14_perm_rows (a b : Arr) (cst : Nat) (hn : a.names = b.names)
+    (hp : a.variants.Perm b.variants) : a.distance cst = b.distance cst := by
+  simp only [Arr.distance, hn]
+  apply List.map_congr_left
+  intro i _
+  apply List.map_congr_left
+  intro j _
+  apply variantDist_perm
+  simp only [Arr.column, List.zip_map']
+  exact hp.map _
+
+/-! ### The mode against the table specification -/
+
+/-- a pair of columns of an unambiguous table, as counts over rows -/
+theorem variantDist_columns (V : List (List UInt8)) (hu : Unambiguous V) (i j cst : Nat) :
+    Arr.variantDist (V.map (fun row => row.getD i GAP)) (V.map (fun row => row.getD j GAP)) cst
+      = (36 * (V.filter (qd i j)).length, (V.filter (qo i j)).length, cst + (V.filter (qb i j)).length) := by
+  rw [variantDist_unamb]
+  · simp only [List.zip_map', List.filter_map, List.length_map]
+    rfl
+  · intro b hb
+    obtain ⟨row, hr, rfl⟩ := List.mem_map.mp hb
+    exact getD_base5 (hu row hr) i
+  · intro b hb
+    obtain ⟨row, hr, rfl⟩ := List.mem_map.mp hb
+    exact getD_base5 (hu row hr) j
+
+/-- **C14, main theorem.** For a well-formed array without ambiguity codes in which every stored
+k-mer is present in some sample, for every threshold `t = ceil(n·min_freq)` and both flag settings,
+`ska distance` reports the input names and, for each pair `i < j` (found at row `i`, position
+`j - i - 1`): 36 × the number of k-mers present in both samples with different middle bases, the
+number of k-mers present in exactly one of the two, and a match count such that
+matches + mismatches is the number of k-mers present in at least one of the two — all counted over
+the k-mers present in at least `t` samples (`Table.pairDist`). In particular the later filter passes
+remove nothing, and adding the removed constant-site count to `matches` is exact. -/
+theorem T14_counts (a : Arr) (hwf : a.WF) (hrp : a.RowsPresent) (hu : Unambiguous a.variants)
+    (t : Nat) (ge1 filt : Bool) :
+    (Modes.distance a t ge1 filt).1 = a.names
+    ∧ (Modes.distance a t ge1 filt).2.length = a.names.length
+    ∧ ∀ i j, i < j → j < a.names.length →
+        ∃ d36 mm m,
+          ((Modes.distance a t ge1 filt).2[i]?.bind (·[j - i - 1]?)) = some (d36, mm, m)
+          ∧ d36 = 36 * (a.abs.pairDist t i j).1
+          ∧ mm = (a.abs.pairDist t i j).2.1
+          ∧ m + mm = (a.abs.pairDist t i j).2.2 := by
+  have hle : a.variants.length ≤ a.kmers.length := by rw [hwf.lenV]; exact Nat.le_refl _
+  have hp : RP a.variants := hrp
+  obtain ⟨a3, hn3, hv3, hd⟩ := modes_distance_struct a hle t ge1 filt
+  rw [V3_eq hp hu] at hv3
+  rw [hd]
+  refine ⟨rfl, ?_, ?_⟩
+  · show (a3.distance _).length = _
+    rw [T14_once, hn3]
+  · intro i j hij hj
+    have hu2 : Unambiguous (V2 t a.variants) := by
+      rw [V2_eq hp, V1_eq hp]; exact Unamb_filter (Unamb_filter hu _) _
+    have he := T14_entry a3 (cstOf t a.variants) i j hij (by rw [hn3]; exact hj)
+    simp only [Arr.column, hv3] at he
+    rw [variantDist_columns _ hu2] at he
+    obtain ⟨s1, s2, s3⟩ := split_counts hp a.names.length hwf.rowLen t i j (by omega) hj
+    refine ⟨_, _, _, he, ?_, ?_, ?_⟩
+    · rw [pairDist_eq a hle hp, s1]
+    · rw [pairDist_eq a hle hp, s2]
+    · rw [pairDist_eq a hle hp, s3, s2]
+      show cstOf t a.variants + _ + _ = _ + _ + _
+      omega
+
+/-! ### Non-vacuity: a concrete 3-sample, 6-row table -/
+
+def exampleArr : Arr := Arr.mk 3 true ["x", "y", "z"] [1, 2, 3, 4, 5, 6]
+    [[65, 65, 65], [65, 67, 45], [45, 45, 84], [71, 71, 45], [67, 84, 71], [84, 84, 84]]
+    [3, 2, 1, 2, 3, 3] 64
+
+theorem exampleArr_WF : exampleArr.WF := ⟨by decide, by decide, by decide, by decide⟩
+theorem exampleArr_present : exampleArr.RowsPresent := by unfold Arr.RowsPresent; decide
+theorem exampleArr_unamb : Unambiguous exampleArr.variants := by unfold Unambiguous; decide
+
+/-- rows 1 and 6 are constant (counted in `matches`), row 3 is dropped by the threshold 2 -/
+example : Modes.distance exampleArr 2 true true
+    = (["x", "y", "z"], [[(72, 0, 5), (36, 2, 3)], [(36, 2, 3)], []]) := by decide +kernel
+example : Modes.distance exampleArr 0 false false
+    = (["x", "y", "z"], [[(72, 0, 5), (36, 3, 3)], [(36, 3, 3)], []]) := by decide +kernel
+example : [exampleArr.abs.pairDist 2 0 1, exampleArr.abs.pairDist 2 0 2, exampleArr.abs.pairDist 2 1 2]
+    = [(2, 0, 5), (1, 2, 5), (1, 2, 5)] := by decide +kernel
+example : [exampleArr.abs.pairDist 0 0 1, exampleArr.abs.pairDist 0 0 2, exampleArr.abs.pairDist 0 1 2]
+    = [(2, 0, 5), (1, 3, 6), (1, 3, 6)] := by decide +kernel
+/-- the hypotheses of the main theorem are satisfiable -/
+example := T14_counts exampleArr exampleArr_WF exampleArr_present exampleArr_unamb 2 true true
 
 end SkaModel.Props.C14
